@@ -382,6 +382,10 @@ def execute_group(scn, rg, only=None, repeat=1):
             files = [rel for rel in files if "/" in rel]
         res = {"files": files, "args": args, "blocks": [], "runs": [], "sortrefs": [], "sortruns": []}
         whole = ("intree",) + INTREE[scn["gid"]] if scn.get("delivery") == "intree" else None     # delivery of every whole-tree run
+        if whole and scn["mode"] == "files":
+            # --files only lists: the file stdout points to is an entry like any other (only searches leave it alone)
+            files = files + [INTREE[scn["gid"]][0]]
+            res["files"] = files
         for rel in files:
             if scn.get("rare") and scn["_kinds"].get(rel) == "empty":
                 res["blocks"].append(b"")        # an empty file has an empty block in the modes of the rare groups
